@@ -321,3 +321,38 @@ def parent_map(root: ast.AST) -> Dict[int, ast.AST]:
         for c in ast.iter_child_nodes(n):
             pm[id(c)] = n
     return pm
+
+
+def shared_default_aliasing(fn_node: ast.AST) -> List[Tuple[str, ast.AST, ast.AST]]:
+    """Containers whose slots all hold ONE mutable object - `dict.fromkeys(keys, [])`, `[[]] * n` - and are then
+    changed through a slot (`d[k].append(x)`, `d[k] += ...`, `d[k][j] = ...`): the change shows under every key.
+    -> [(name, creating expr, mutating stmt)]"""
+    def mutable(e):
+        return isinstance(e, (ast.List, ast.Dict, ast.Set)) or (isinstance(e, ast.Call) and dotted(e.func) in ("list", "dict", "set", "bytearray", "collections.defaultdict", "defaultdict"))
+    made = {}
+    for n in walk_local(fn_node):
+        v = n.value if isinstance(n, (ast.Assign, ast.AnnAssign)) else None
+        if v is None:
+            continue
+        tg = n.targets[0] if isinstance(n, ast.Assign) else n.target
+        if not isinstance(tg, ast.Name):
+            continue
+        if isinstance(v, ast.Call) and dotted(v.func) in ("dict.fromkeys", "OrderedDict.fromkeys", "collections.OrderedDict.fromkeys") and len(v.args) == 2 and mutable(v.args[1]):
+            made[tg.id] = v
+        elif isinstance(v, ast.BinOp) and isinstance(v.op, ast.Mult):
+            for a, b in ((v.left, v.right), (v.right, v.left)):
+                if isinstance(a, ast.List) and len(a.elts) == 1 and mutable(a.elts[0]) and not (isinstance(b, ast.Constant) and b.value in (0, 1)):
+                    made[tg.id] = v
+    out = []
+    if not made:
+        return out
+    for kind, tgt, st in stores_in(fn_node):
+        e = tgt
+        if kind == "mutcall" or kind == "aug":
+            if isinstance(e, ast.Subscript) and isinstance(e.value, ast.Name) and e.value.id in made:
+                out.append((e.value.id, made[e.value.id], st))
+        elif kind == "sub-store":
+            inner = tgt.value
+            if isinstance(inner, ast.Subscript) and isinstance(inner.value, ast.Name) and inner.value.id in made:
+                out.append((inner.value.id, made[inner.value.id], st))
+    return out
